@@ -216,6 +216,9 @@ where
     /// Returns [Err] if the stream fails to close gracefully.
     pub async fn finish(mut self) -> Result<()> {
         self.flush_batch()?;
+        // `BiStream::finish` closes the QUIC stream directly, so anything still sitting in the
+        // framed writer's buffer (e.g. the batch queued just above) has to be written out first
+        self.stream.flush().await?;
         self.stream.finish().await
     }
 
